@@ -10,8 +10,10 @@
 (*            invalid data], panic - is chosen when CallStep returns)       *)
 (*   sig(r)   signal for run r (accepted only if r was started)             *)
 (*   cd       client done                                                   *)
-(*   bad      decodable but unacceptable (unknown message ID, work-start    *)
-(*            without run or step ID, payload of the wrong type)            *)
+(*   bad      decodable but unacceptable, answered by a non-fatal error     *)
+(*            (unknown message ID, signal without run ID / bad payload)     *)
+(*   wsbad    work-start without run or step ID or with a payload of the    *)
+(*            wrong type: answered by a step-fatal error, nothing started   *)
 (*   junk     bytes that are not a CBOR runtime message                     *)
 (*   partial  the first fragment of a message, then nothing more of it      *)
 (*   eof      end of input                                                  *)
@@ -27,7 +29,7 @@ Ended == \E i \in DOMAIN c2s : c2s[i].m.t = "eof"
 InputOver == Ended \/ (\E i \in DOMAIN sbuf : sbuf[i].m.t = "eof") \/ spc \notin {"recv", "handle"}
 
 EnvMsgs == {Msg("ws", r, "") : r \in Runs} \cup {Msg("sig", r, "") : r \in Runs}
-           \cup {Msg("cd", NoRun, ""), Msg("bad", NoRun, ""), Msg("junk", NoRun, "")}
+           \cup {Msg("cd", NoRun, ""), Msg("bad", NoRun, ""), Msg("wsbad", NoRun, ""), Msg("junk", NoRun, "")}
 
 \* a client write completes only when the server takes it (or has closed its input): the
 \* environment is sequential, like a real client's encoder
